@@ -219,13 +219,22 @@ func (d dec) lit(r *rand.Rand, fancy bool) string {
 	if x.IsInt() {
 		s := x.Num().String()
 		if fancy {
-			switch r.Intn(8) {
+			switch r.Intn(10) {
 			case 0:
 				return s + ".0"
 			case 1:
 				return s + "e0"
 			case 2:
 				return s + ".00E+0"
+			case 3:
+				if strings.HasSuffix(s, "0") && len(s) > 1 && s != "-0" {
+					return s[:len(s)-1] + "e1" // 20 = 2e1
+				}
+				return s + "0e-1" // 7 = 70e-1
+			case 4:
+				if s == "0" {
+					return "-0"
+				}
 			}
 		}
 		return s
